@@ -28,8 +28,32 @@ def install_stubs(P, g, solver=None):
         return env
     np = P.np
 
+    class LilArray(numpy.ndarray):
+        """dense object matrix with the part of the scipy.sparse.lil_matrix interface code may reasonably use"""
+
+        def setdiag(self, values, k=0):
+            n = min(self.shape)
+            vals = numpy.asarray(values, dtype=object)
+            for i in range(n - abs(k)):
+                r, c = (i, i + k) if k >= 0 else (i - k, i)
+                self[r, c] = vals[i] if vals.ndim else vals.item()
+
+        def toarray(self):
+            return numpy.array(self, dtype=object)
+
+        todense = toarray
+
+        def tocsr(self, copy=False):
+            return self
+
+        tocsc = tolil = tocoo = tocsr
+
+        @property
+        def nnz(self):
+            raise AttributeError("nnz of the dense stand-in is not modelled")
+
     def lil_matrix(shape, dtype=None):
-        return np.zeros(shape)
+        return np.zeros(shape).view(LilArray)
 
     class FakeTime:
         @staticmethod
